@@ -154,7 +154,7 @@ def S(name, fn, **kw):
 def obligations(prop, tier):
     deep = tier == "thorough"
     q = {
-        "C01": [K("u_nextid"), K("u_insert"), K("d_generate")],
+        "C01": [K("u_nextid"), K("u_insert"), K("d_generate"), KD("u_extract", 3)],
         "C02": [K("u_insert"), K("d_generate"), K("d_generate_kill"), K("u_ctx_write")],
         "C03": [K("u_insert"), K("u_insert_unordered"), K("u_load")],
         "C04": [K("u_count"), K("d_check"), K("u_pr"), K("u_load"), K("u_ctx_read")],
